@@ -118,12 +118,16 @@ def check(P, R):
     R.require(len(fors) >= 1, 'BaseResponse.__init__: header loops not found')
     # both header sources (the positional mapping / pair list and the keyword headers) are iterated
     seen_src = ' '.join(T.xsrc(bi, lp_.iter, bi.cfg.nodes_for(lp_)[0]) for lp_ in fors)
+    # (the sources may reach the loop through a local that collects them: `pairs = chain(headers.items(), more_headers.items())`)
+    for lp_ in fors:
+        seen_src += ' ' + ' '.join(x.id for x in bi.rd.closure_nodes(lp_.iter, bi.cfg.nodes_for(lp_)[0]) if isinstance(x, ast.Name) and x.id in bi.params)
     R.ob('C14.b', bi, fors[0], bi.params[3] in seen_src and (bi.params[4] if len(bi.params) > 4 else 'more_headers') in seen_src,
          text='constructor iterates the positional and the keyword headers', detail='' if (bi.params[3] in seen_src) else 'a header source of the constructor is not stored',
          nontrivial=False)
     for lp in fors:
         calls = [c for st in lp.body for c in walk_shallow(st) if isinstance(c, ast.Call)]
-        ok = any(dotted(c.func) == 'self.headers.append' for c in calls) and not any(
+        appends_ = [c for c in T.calls_to(bi, 'self.headers.append') if T._inside(c, lp.body)]
+        ok = bool(appends_) and not any(
             isinstance(st, ast.Assign) for b in lp.body for st in walk_shallow(b))
         R.ob('C14.b', bi, lp, ok, text=f'for {short(lp.target)} in {short(lp.iter)}: self.headers.append', detail='' if ok else
              'constructor headers are not stored through self.headers.append (guarded)')
